@@ -45,7 +45,7 @@ public:
     bool equalVariables(const ComponentPtr &other) const;
     bool equalResets(const ComponentPtr &other) const;
 
-    bool performTestWithHistory(History &history, const ComponentConstPtr &component, TestType type) const;
+    bool performTestWithHistory(History &history, std::vector<const Component *> &componentsOnPath, const ComponentConstPtr &component, TestType type) const;
 };
 
 } // namespace libcellml
